@@ -1080,7 +1080,7 @@ theorem build_call1_inv (regexOk : RegexOk) (limit : Nat) (snt sdf : Bool) (nm p
   rw [hA] at h
   simp only [hU, h1, h2, h3, h4, Nat.lt_irrefl, ↓reduceIte, Bool.false_eq_true, Bool.false_and] at h
   have key : ∃ ao, build regexOk limit snt sdf (a.acons Ast.anil) { take := 1 }
-            { depth := st.depth + 1, firstInput := st.firstInput } = .ok ao ∧ o.q = .func nm .nil ao.q := by
+            { depth := st.depth + 1, firstInput := st.firstInput, predInput := st.predInput } = .ok ao ∧ o.q = .func nm .nil ao.q := by
     rcases hmx with rfl | rfl <;>
     · simp only [Nat.lt_irrefl, decide_false, ↓reduceIte, Bool.false_eq_true, gt_iff_lt] at h
       obtain ⟨ao, hao, h⟩ := except_bind_ok _ _ _ h
